@@ -693,9 +693,13 @@ def run(ctx):
     tots = [wtot, rtot]
     sims = 0
     if not quick:
+        # random walks: writer programs only.  TLC's simulator compares successive states with `=`, and the
+        # reader machine's `out.v` is an integer after some reads and a bit sequence after others: the simulation
+        # worker dies with "Attempted to check equality of integer 0 with non-integer" and TLC never returns
+        # (breadth-first checking works on fingerprints and is unaffected).  Long reader programs are covered by
+        # the recorded traces (T direction) instead.
         for name, cfg, n, depth in (
             ("writer", cfg_text(CFG_W, MaxLen=14), 6000, 14),
-            ("reader", cfg_text(CFG_R, MaxLen=12, MaxBits=10), 6000, 12),
         ):
             sim = tlc.run("BitIO", cfg, simulate=n, depth=depth, seed=ctx.seed, workers=1, env=JVM_ENV)
             files = sorted(glob.glob(os.path.join(sim.sim_dir, "tr*")))
